@@ -10,8 +10,8 @@ package main
 // The Lean model lean/Kanzi/Model/AnsDec.lean (driver lean/Kanzi/Drv/AnsDec.lean) must predict the
 // same line.  Oracles on the real code, independent of the model: every Read returns within the
 // watchdog; an oversize ReadArray never returns normally; the slices the decoder allocates stay
-// within the bound proved for the model (V2: len(buffer) <= max(2*min(chunk,len),256),
-// len(f2s) <= dim*32768); the bytes the Go runtime allocated during a Read stay within that bound
+// within the bound proved for the model (len(buffer) <= max(2*min(chunk,len),256), times 9/8 for
+// bitstream version 1, len(f2s) <= dim*32768); the bytes the Go runtime allocated during a Read stay within that bound
 // plus a small constant (a forged 2^27 size must be rejected before allocating).
 
 import (
@@ -157,6 +157,7 @@ func adExec(op string, res *Result) string {
 		chunkEff = min(chunkEff<<8, 1<<27)
 	}
 	var toks []string
+	maxBound := 0
 	for ri, ln := range lens {
 		blk := make([]byte, ln)
 		var n int
@@ -178,6 +179,7 @@ func adExec(op string, res *Result) string {
 		}
 		f2sBound := dim * 32768
 		bufBound := max(2*min(chunkEff, ln), 256)
+		maxBound = max(maxBound, bufBound) // the buffer persists from Read to Read
 		if f2sLen > f2sBound {
 			esViol(res, site, "alloc-f2s", fmt.Sprintf("len(f2s)=%d > %d", f2sLen, f2sBound))
 		}
@@ -188,13 +190,13 @@ func adExec(op string, res *Result) string {
 			if ri == 0 && delta > int64(f2sBound+bufBound+1<<16) {
 				esViol(res, site, "alloc-total", fmt.Sprintf("%d bytes allocated during Read of %d bytes (bound %d)", delta, ln, f2sBound+bufBound+1<<16))
 			}
-		} else if bufLen > bufBound+bufBound/8 {
-			// (a legitimate version-1 payload is at most 2*len bytes: sz + sz>>3 <= bufBound*9/8)
-			// decodeChunkV1 sizes this.buffer from the VarInt of the stream alone (sz + sz>>3, sz < 2^27):
-			// not bounded by the block.  Finding (C03 b): reported once per run through the violation list.
+		} else if bufLen > maxBound+maxBound/8 || (ri == 0 && delta > int64(f2sBound+bufBound+bufBound/8+1<<16)) {
+			// decodeChunkV1 allocates sz + sz>>3 bytes, sz = the VarInt of the stream.  It used to accept any
+			// sz < 2^27 (finding: 144 MiB per task from a 52-byte stream); since the repair sz > max(2*len,256) is
+			// rejected, so len(buffer) <= bufBound*9/8 (theorem C03_ans_v1_alloc_bound).  A regression is reported here.
 			res.Tags = append(res.Tags, "obs:v1-buffer-from-forged-size")
 			esViol(res, "entropy.ANSRangeDecoder.decodeChunkV1", "alloc-forged-size",
-				fmt.Sprintf("bitstream version 1: len(buffer)=%d allocated for a Read of %d bytes (V2 bound max(2*len,256)=%d); the size comes from the stream's VarInt (up to 2^27-1 + 1/8 = 144 MiB per decoding task)", bufLen, ln, bufBound))
+				fmt.Sprintf("bitstream version 1: len(buffer)=%d allocated for a Read of %d bytes, beyond 9/8 of max(2*len,256)=%d: the size comes from the stream's VarInt", bufLen, ln, bufBound))
 		}
 		if pv != nil {
 			cls := "eos"
